@@ -4,10 +4,16 @@ from .. import vlib
 
 TRUSTED = [
     "Lean 4.33 kernel; axioms per theorem listed under coverage.axioms (subset of propext, Classical.choice, Quot.sound)",
-    "translate/units.py (Units.hpp, UnitSystem.{hpp,cpp}, keyword JSON, shape of DeckItem.cpp -> Gen/Units.lean); "
+    "translate/units.py (Units.hpp, UnitSystem.{hpp,cpp}, keyword JSON, shape of DeckItem.cpp -> Gen/Units.lean; "
+    "FieldProps.hpp unit strings, UnitSystem::uda_dim, Summary.cpp mul_unit/div_unit, item->string index table -> Gen/UnitsUse.lean); "
     "cross-checked on every run by the bit-exact correspondence (every constant, table entry, named dimension and "
     "keyword dimension string is also asked from the real code)",
-    "Proofs/UnitsSpec.lean: the hand-written SI definitions and measure compositions the tables are proved equal to",
+    "Proofs/UnitsSpec.lean: the hand-written SI definitions and measure compositions the tables are proved equal to; "
+    "Proofs/UnitsUseSpec.lean: the specification's reading of a composite string, UDA control -> deck item, and the "
+    "exception lists naming the open findings (fieldPropsOpen, fieldPropsMismatchOpen, udaOpen, inputLacks)",
+    "harness/units.cpp PENDING: nine exact property-mode keys of reported findings are recorded in pending.txt instead of "
+    "failing the check (to be emptied when they are listed in known_findings.txt or fixed)",
+    "modelled, not verified: Summary.cpp mul_unit/div_unit (anonymous namespace) are tied by the translator only",
     "harness/units.cpp + lib/vlib.py differ; model driver (compiled Lean)",
     "modelled, not verified: IEEE rounding (theorems are exact over Rat / any field of characteristic 0; the Float run "
     "of the same expressions is compared bit for bit, and the real doubles are checked against the exact rationals "
@@ -20,7 +26,8 @@ TRUSTED = [
 def run(ctx):
     ctx.assumptions += [
         "doubles cross the protocol as IEEE bit patterns; the build has no FMA contraction (x86-64 baseline)",
-        "\"X/\" and \"/\" are never sent to UnitSystem::parse (it indexes parts[1] of a one-element vector)",
+        "\"X/\" and \"/\" are never sent to UnitSystem::parse (it indexes parts[1] of a one-element vector: undefined "
+        "behaviour, characterised exactly by theorem parse_ub_iff; no keyword item / FieldProps string is of that form)",
     ]
     ctx.stage_translate(["units"])
     if not ctx.stage_build_opm():
